@@ -87,6 +87,7 @@ class TrackedUser:
     queue: asyncio.Queue[TrackingRequest] = field(default_factory=asyncio.Queue)
     task: Optional[asyncio.Task] = None
     retry_task: Optional[asyncio.Task] = None
+    retry_request: Optional[TrackingRequest] = None
 
     def add_flag(self, flag: TrackingFlag):
         self.flags |= flag
@@ -571,7 +572,12 @@ class UserTrackingManager:
 
             previous_flags = tracked_user.flags
             request.operation(request.flag)
-            is_retry = request.flag == TrackingFlag(0)
+            # Only the request of the retry that is still pending counts: a
+            # retry that was called off after its request was put on the queue
+            # (the user got untracked, possibly tracked again) is a no-op
+            is_retry = request is tracked_user.retry_request
+            if is_retry:
+                tracked_user.retry_request = None
 
             if tracked_user.flags == TrackingFlag(0):
                 # Ensure retry does not get scheduled again if we no longer
@@ -634,9 +640,14 @@ class UserTrackingManager:
         if tracked_user.retry_task:
             tracked_user.retry_task.cancel()
 
+        # The retry task can no longer be cancelled once it has put its request
+        # on the queue: forget the request, it is ignored when it gets handled
+        tracked_user.retry_request = None
+
     async def _request_retry(self, tracked_user: TrackedUser, timeout: float):
         await asyncio.sleep(timeout)
         request = TrackingRequest(tracked_user.add_flag, TrackingFlag(0))
+        tracked_user.retry_request = request
         tracked_user.queue.put_nowait(request)
 
     async def _request_tracking(
